@@ -134,20 +134,30 @@ def huge_count(np, coll):
 
 
 QUICK_CASES = 96        # cases of one call in a quick-tier run (stratified sample of the full list)
-THOROUGH_CASES = 600
+THOROUGH_CASES = 128     # per call in a thorough-tier run (64 for the sizes outside REQUIRED_NP)
 
 
 def _stratified(cases, limit, rng):
-    """At most `limit` cases, every (count, mode, pattern) stratum of the full list represented as evenly as possible."""
+    """At most `limit` cases: every count of the full list is present, then every (count, mode, pattern) stratum as evenly
+    as possible (the seed draws which cases of a stratum are kept)."""
     if len(cases) <= limit:
         return cases
     buckets = {}
     for c in cases:
         buckets.setdefault((c["c"], c["mode"], c["pat"]), []).append(c)
-    keys = sorted(buckets)
-    rng.shuffle(keys)
-    for k in keys:
+    bycount = {}
+    for k in sorted(buckets):
         rng.shuffle(buckets[k])
+        bycount.setdefault(k[0], []).append(k)
+    for cnt in bycount:
+        rng.shuffle(bycount[cnt])
+    # strata interleaved so that the first picks cover all counts, the next ones their other modes/patterns, ...
+    keys = []
+    depth = max(len(v) for v in bycount.values())
+    for i in range(depth):
+        for cnt in sorted(bycount):
+            if i < len(bycount[cnt]):
+                keys.append(bycount[cnt][i])
     out = []
     while len(out) < limit:
         took = False
